@@ -112,7 +112,10 @@ REFUSE_HEAVY = dict(
     cache_rels=['../cache.gz', 'cache.gz', '../cd/cache.gz'])
 PERSIST_HEAVY = dict(
     p_ret_val=0.7, args_pool='rich', names=['a b', '\u00e9', '.h', 'c',
-                                            '-x', 'x' * 60, '\U0001f600'],
+                                            '-x', 'x' * 60, '\U0001f600',
+                                            '{0}', '%s', 'q"q', "q'q",
+                                            't\tb', 'n\nl', '\\b', '..c',
+                                            'e\u0301'],
     n_steps=(3, 6), p_mutate_step=0.1, p_clean_step=0.15, w_raise=6,
     p_catch=0.85, p_version_change=0.2, n_groups=(1, 1), p_nonjson=0.02)
 
